@@ -111,9 +111,10 @@ Section Content.
   Proof.
     induction ins as [|o t IH]; intros l; cbn [add_inputs].
     - destruct i; reflexivity.
-    - destruct i as [|i'].
-      + rewrite IH. reflexivity.
-      + rewrite ser_outpoint_nonempty, add_entry_live. cbn [rbind]. rewrite IH. reflexivity.
+    - change coinbase_index with 0. destruct i as [|i'].
+      + change (N.of_nat 0 =? 0) with true. cbv iota. rewrite IH. reflexivity.
+      + replace (N.of_nat (S i') =? 0) with false by (symmetry; apply N.eqb_neq; lia).
+        rewrite ser_outpoint_nonempty, add_entry_live. cbn [rbind]. rewrite IH. reflexivity.
   Qed.
 
   Lemma add_outputs_live outs : forall l,
@@ -137,9 +138,13 @@ End Content.
 Lemma default_params : default_p = 19 /\ default_m = 784931.
 Proof. split; reflexivity. Qed.
 
+(* literals of builder.go / gcs.go the model reads (what the source says today) *)
+Lemma builder_lits : key_size = 16%nat /\ build_p_unset = 0 /\ build_m_unset = 0 /\ coinbase_index = 0 /\ setp_max = 32.
+Proof. repeat split; reflexivity. Qed.
+
 Lemma copy_key_length x : length (copy_key x) = 16%nat.
 Proof.
-  unfold copy_key, key_size. rewrite firstn_length, app_length, repeat_length. lia.
+  unfold copy_key. change key_size with 16%nat. rewrite firstn_length, app_length, repeat_length. lia.
 Qed.
 
 Lemma copy_key_idem x : copy_key (copy_key x) = copy_key x.
@@ -208,6 +213,33 @@ Proof.
     exists (S k), t, o. repeat split; auto. lia.
 Qed.
 
+(* BuildBasicFilter keys the filter by the first 16 bytes of the block hash (SHA256d of the 80-byte header);
+   BuildMempoolFilter by 16 zero bytes, and (an empty transaction standing in for the coinbase) includes the
+   inputs of ALL the transactions it is given *)
+Theorem block_filter_keys hash sort header txs :
+  build_basic_filter hash sort header txs =
+    build hash sort default_p default_m (firstn 16 (sha256d header ++ repeat 0 16)) (add_all [] (block_entries 0 txs)) /\
+  build_mempool_filter hash sort txs =
+    build hash sort default_p default_m (repeat 0 16) (add_all [] (block_entries 1 txs)).
+Proof.
+  unfold build_basic_filter, build_mempool_filter. rewrite !builder_content. split; reflexivity.
+Qed.
+
+Theorem mempool_entries_spec txs :
+  let es := add_all [] (block_entries 1 txs) in
+  NoDup es /\
+  forall e, In e es <->
+    (exists t o, In t txs /\ In o (tx_ins t) /\ e = ser_outpoint o) \/
+    (exists t, In t txs /\ In e (tx_outs t) /\ e <> []).
+Proof.
+  cbv zeta. split; [apply add_all_nodup; constructor|].
+  intros e. rewrite add_all_in, block_entries_in. cbn [In]. split.
+  - intros [[]|[(k & t & o & Hn & _ & Ho & E)|H]]; [|right; exact H].
+    left. exists t, o. split; [eapply nth_error_In; exact Hn | auto].
+  - intros [(t & o & Ht & Ho & E)|H]; right; [left | right; exact H].
+    destruct (In_nth_error _ _ Ht) as [k Hk]. exists k, t, o. repeat split; auto. lia.
+Qed.
+
 (* ---------- error latch ---------- *)
 Theorem builder_latch hash sort b e : b_err b = Some e ->
   (forall k, set_key b k = b) /\ (forall h, set_key_from_hash b h = b) /\
@@ -218,6 +250,12 @@ Proof.
   intros H. unfold set_key, set_key_from_hash, set_p, set_m, preallocate, add_entry, add_entries, add_hash,
     b_key_get, b_build, latched. rewrite H. repeat split.
 Qed.
+
+Theorem builder_build_live hash sort b : b_err b = None ->
+  b_build hash sort b =
+    if b_p b =? 0 then Err 5 else if b_m b =? 0 then Err 6
+    else build hash sort (b_p b) (b_m b) (b_key b) (entries_of b).
+Proof. intros H. unfold b_build. rewrite H. reflexivity. Qed.
 
 Theorem builder_param_checks b : b_err b = None ->
   (forall p, 32 < p -> b_err (set_p b p) = Some 2) /\
